@@ -317,3 +317,82 @@ Proof.
   rewrite (R g t p Hreq), spec_run_state. cbn [spec_empty].
   destruct (last_commit ops (g, t, p)) as [[o m]|]; reflexivity.
 Qed.
+
+(* ---------- a whole OffsetCommit request, then OffsetFetch of the same partitions ---------- *)
+Lemma last_commit_app a b k :
+  last_commit (a ++ b) k = match last_commit b k with Some v => Some v | None => last_commit a k end.
+Proof.
+  induction a as [|o a IH]; cbn [app last_commit]; [now destruct (last_commit b k)|].
+  rewrite IH. destruct (last_commit b k); [reflexivity|]. reflexivity.
+Qed.
+
+Definition op_key (o : op) : option ckey :=
+  match o with OCommit g t p _ _ => Some (g, t, p) | _ => None end.
+
+Lemma last_commit_absent l k : ~ In (Some k) (map op_key l) -> last_commit l k = None.
+Proof.
+  induction l as [|o l IH]; intros H; [reflexivity|]. cbn [last_commit]. cbn in H.
+  rewrite IH by tauto. destruct o; try reflexivity.
+  destruct (ckey_eqb k (g, t, p)) eqn:E; [|reflexivity].
+  apply ckey_eqb_spec in E. subst. exfalso. apply H. now left.
+Qed.
+
+Lemma last_commit_present l g t p off m :
+  NoDup (map op_key l) -> In (OCommit g t p off m) l -> last_commit l (g, t, p) = Some (off, m).
+Proof.
+  induction l as [|o l IH]; intros Hnd Hin; [contradiction|].
+  cbn [map] in Hnd. inversion Hnd as [|? ? Hni Hnd']; subst. cbn [last_commit].
+  destruct Hin as [->|Hin].
+  - rewrite last_commit_absent by exact Hni. now rewrite (proj2 (ckey_eqb_spec _ _) eq_refl).
+  - now rewrite (IH Hnd' Hin).
+Qed.
+
+Definition meta_or_empty (m : option bytes) : bytes := match m with Some x => x | None => [] end.
+
+Lemma in_commit_ops g req t ps p off m :
+  In (t, ps) req -> In (p, off, m) ps -> In (OCommit g t p off (meta_or_empty m)) (offset_commit_ops g req).
+Proof.
+  intros Ht Hp. unfold offset_commit_ops. apply in_flat_map. exists (t, ps). split; [exact Ht|].
+  cbn [fst snd]. apply in_map_iff. exists (p, off, m). split; [reflexivity|exact Hp].
+Qed.
+
+Theorem request_roundtrip_im b ops g req :
+  forallb is_coff_op ops = true ->
+  NoDup (map op_key (offset_commit_ops g req)) ->
+  offset_fetch (im_lookup (fst (im_run (im_new b) (ops ++ offset_commit_ops g req)))) g
+               (map (fun tp => (fst tp, map (fun e => fst (fst e)) (snd tp))) req)
+  = map (fun tp => (fst tp, map (fun e => (fst (fst e), snd (fst e), meta_or_empty (snd e), 0)) (snd tp))) req.
+Proof.
+  intros Hops Hnd.
+  assert (forallb is_coff_op (ops ++ offset_commit_ops g req) = true) as Hall.
+  { rewrite forallb_app, Hops. cbn. unfold offset_commit_ops. apply forallb_forall. intros o Hin.
+    apply in_flat_map in Hin as ([t ps] & _ & Hin). apply in_map_iff in Hin as ([[p off] m] & <- & _). reflexivity. }
+  rewrite (offset_fetch_im b _ g _ Hall). rewrite map_map. apply map_ext_in. intros [t ps] Ht. cbn [fst snd].
+  f_equal. rewrite map_map. apply map_ext_in. intros [[p off] m] Hp. cbn [fst snd].
+  rewrite last_commit_app, (last_commit_present _ g t p off (meta_or_empty m) Hnd (in_commit_ops g req t ps p off m Ht Hp)).
+  reflexivity.
+Qed.
+
+Theorem request_roundtrip_et b ops g req :
+  forallb is_coff_op ops = true -> Forall op_topic_noslash ops ->
+  Forall (fun tp => noslash (fst tp)) req ->
+  NoDup (map op_key (offset_commit_ops g req)) ->
+  offset_fetch (et_lookup (fst (et_run (et_new b) (ops ++ offset_commit_ops g req)))) g
+               (map (fun tp => (fst tp, map (fun e => fst (fst e)) (snd tp))) req)
+  = map (fun tp => (fst tp, map (fun e => (fst (fst e), snd (fst e), meta_or_empty (snd e), 0)) (snd tp))) req.
+Proof.
+  intros Hops Hns Hreq Hnd.
+  assert (forallb is_coff_op (ops ++ offset_commit_ops g req) = true) as Hall.
+  { rewrite forallb_app, Hops. cbn. unfold offset_commit_ops. apply forallb_forall. intros o Hin.
+    apply in_flat_map in Hin as ([t ps] & _ & Hin). apply in_map_iff in Hin as ([[p off] m] & <- & _). reflexivity. }
+  assert (Forall op_topic_noslash (ops ++ offset_commit_ops g req)) as Hns'.
+  { apply Forall_app. split; [exact Hns|]. apply Forall_forall. intros o Hin. unfold offset_commit_ops in Hin.
+    apply in_flat_map in Hin as ([t ps] & Ht & Hin). apply in_map_iff in Hin as ([[p off] m] & <- & _).
+    rewrite Forall_forall in Hreq. exact (Hreq _ Ht). }
+  assert (Forall (fun tp : bytes * list Z => noslash (fst tp)) (map (fun tp : bytes * list (Z * Z * option bytes) => (fst tp, map (fun e => fst (fst e)) (snd tp))) req)) as Hreq'.
+  { apply Forall_forall. intros x Hx. apply in_map_iff in Hx as (tp & <- & Htp). rewrite Forall_forall in Hreq. exact (Hreq _ Htp). }
+  rewrite (offset_fetch_et b _ g _ Hall Hns' Hreq'). rewrite map_map. apply map_ext_in. intros [t ps] Ht. cbn [fst snd].
+  f_equal. rewrite map_map. apply map_ext_in. intros [[p off] m] Hp. cbn [fst snd].
+  rewrite last_commit_app, (last_commit_present _ g t p off (meta_or_empty m) Hnd (in_commit_ops g req t ps p off m Ht Hp)).
+  reflexivity.
+Qed.
